@@ -322,7 +322,8 @@ def spoil(rng, value):
             # keys named like the other fields of the object (declared attributes), control attributes,
             # values that look like prefixed names
             k = rng.choice([kv[0] for kv in o["fields"]] + ["{%s}nil" % XSI, "{%s}type" % XSI, "{urn:o}q", "w"])
-            val = rng.choice(["ns0:bar", "xs:int", "p:", ":x", "http://h", "{http://www.w3.org/2001/XMLSchema}int", "true"])
+            val = rng.choice(["ns0:bar", "xs:int", "p:", ":x", "http://h", "{http://www.w3.org/2001/XMLSchema}int", "true",
+                              " pad ", "  "])
             if all(kv[0] != k for kv in m["attrs"]):
                 m["attrs"].append([k, val])
     return v
